@@ -373,7 +373,57 @@ def rule_flush(ctx):
             "BufferedSocket.%s must flush and then %s the real socket" % (nm, nm), f.loc())
 
 
+def rule_alert_header(ctx):
+    """ALERT-HEADER: a received record is taken for the peer's alert (and raised as TLSRemoteAlert) only
+    on the strength of ITS OWN header: wherever `Alert().parse(p)` runs on a parser that came out of a
+    record together with a header (`hdr, p = <record>`), a condition on that header's `type` guards it.
+    A test on anything else (the message being sent, a flag) drops the peer's alert or misparses data."""
+    from ..flow import reaching_defs
+    from .c02 import _guards
+    R = "C17.ALERT-HEADER"
+    n = 0
+    for fi in ctx.index.all_functions():
+        if fi.module.name != "tlsrecordlayer":
+            continue
+        sites = [c for c in calls_in(fi.node) if call_name(c) == "parse" and isinstance(c.func, ast.Attribute)
+                 and isinstance(c.func.value, ast.Call) and call_name(c.func.value) == "Alert"
+                 and c.args and isinstance(c.args[0], ast.Name)]
+        if not sites:
+            continue
+        g = ctx.an.cfg(fi)
+        for c in sites:
+            p = c.args[0].id
+            cands = [nd for nd in g.nodes if nd.ast is not None and any(x is c for x in ast.walk(nd.ast))]
+            if not cands:
+                continue
+            # the innermost CFG node that holds the call
+            node = min(cands, key=lambda nd: (getattr(nd.ast, "end_lineno", 0) or 0) - (getattr(nd.ast, "lineno", 0) or 0))
+            hdrs = set()
+            for d in reaching_defs(g, node, p):
+                a = d.ast
+                if isinstance(a, ast.Assign) and len(a.targets) == 1 and isinstance(a.targets[0], ast.Tuple) \
+                        and len(a.targets[0].elts) == 2 and all(isinstance(x, ast.Name) for x in a.targets[0].elts) \
+                        and a.targets[0].elts[1].id == p:
+                    hdrs.add(a.targets[0].elts[0].id)
+            if not hdrs:
+                continue
+            n += 1
+            stmt = next((s_ for s_ in ast.walk(fi.node) if isinstance(s_, ast.stmt) and not isinstance(s_, (ast.If, ast.For, ast.While, ast.Try, ast.With, ast.FunctionDef))
+                         and any(x is c for x in ast.walk(s_))), None)
+            guards = _guards(fi.node, stmt) or []
+            ok = any(isinstance(x, ast.Attribute) and x.attr == "type" and isinstance(x.value, ast.Name) and x.value.id in hdrs
+                     for t_, pol in guards for x in ast.walk(t_))
+            ctx.check(R, ok, fi.qname, c,
+                      "`%s` parses the received record as an alert without a test of that record's own header "
+                      "(`%s.type`); its guards are: %s" % (norm(c), "/".join(sorted(hdrs)),
+                                                          "; ".join(norm(t_) for t_, _ in guards)[:200] or "none"),
+                      fi.loc(c), what="%s: alert parsed under a test of the received header" % fi.short)
+    if n < 3:
+        raise AnalysisError("%s: only %d alert-parsing sites with a header found (confirmed 3)" % (R, n))
+
+
 RULES = [
+    ("C17.ALERT-HEADER", "quick", rule_alert_header),
     ("C17.SHUTDOWN-ARG", "quick", rule_shutdown_arg),
     ("C17.ALERT", "quick", rule_alert),
     ("C17.EOF", "quick", rule_eof),
